@@ -1,6 +1,7 @@
 """C17 — C ABI shim: null discipline, no Rust enum by value from C, stream kind / allocator rejection, accounting identities,
 discriminant agreement (structural clauses)."""
 import paths
+import slices
 import termeval
 from mir import callee_name
 from terms import ISet, Facts, tstr, pstr, is_const, const_val
@@ -288,12 +289,16 @@ def rule_accounting(ctx, r):
                 return v[0] == "pure" and v[1] == "wrapping_add" and any(paths.is_load_of(q, fieldname) for q in v[2]) and \
                     any(q == fldv(cnt) or (q[0] == "cast" and q[1] == fldv(cnt)) for q in v[2])
             ok_tot = st_in and st_out and is_wadd(st_in[-1][2], "total_in", "bytes_consumed") and is_wadd(st_out[-1][2], "total_out", "bytes_written")
-            adv = [e for e in x.effects if e[0] == "call" and ("Index<I> for [T]>::index" in e[1] or "IndexMut<I> for [T]>::index_mut" in e[1]) and
-                   e[2][1][0] == "agg" and e[2][1][1].endswith("RangeFrom")]
-            amts = sorted(tstr(e[2][1][4][0]) for e in adv)
-            want = sorted([tstr(fldv("bytes_consumed")), tstr(fldv("bytes_written"))])
-            want2 = sorted([tstr(("cast", fldv("bytes_consumed"), "usize", "widen")), tstr(("cast", fldv("bytes_written"), "usize", "widen"))])
-            ok_adv = amts == want or amts == want2
+            # the two slices stored back are the old ones from the returned count to their end, however the slicing is spelled
+            offs = []
+            for e in x.stores():
+                reg = slices.region(e[2], store=x.store) if isinstance(e[2], tuple) else None
+                if reg is None or reg.off == (0, {}) or slices.strip(e[2]) == reg.root:
+                    continue
+                if slices.ladd(reg.off, reg.length) == (0, {("len", reg.root): 1}):
+                    offs.append(reg.off)
+            amts = sorted(str(o) for o in offs)
+            ok_adv = len(offs) == 2 and sorted(amts) == sorted(str(slices.lin(fldv(n_))) for n_ in ("bytes_consumed", "bytes_written"))
             ok_ad = bool(st_ad) and paths.term_contains(st_ad[-1][2], lambda y: y[0] == "call" and y[1].endswith(statefn) and y[4 - 1] > cs[0][4])
             if ok_tot and ok_adv and ok_ad:
                 r.ok(f.name, "accounting", "next_in/next_out advanced by, and total_in/total_out wrapping-added with, exactly the counts returned; adler refreshed afterwards")
@@ -566,6 +571,66 @@ def rule_param_validation(ctx, r):
         r.ok(g.name, "validation", "window_bits in -64..=64: Err(Param) iff |window_bits| != 15, stream untouched on error")
 
 
+
+def rule_raw_copies(ctx, r):
+    """R17.7: a raw copy into a caller-described buffer (`ptr::copy_nonoverlapping(src, S.buf.add(off), n)`) is preceded, on the same
+    path, by a test that establishes off + n <= S.capacity — with the capacity value in force at the copy (after a reallocation: the
+    new capacity).  The C caller's declared length is the only thing standing between these copies and its memory."""
+    c = ctx.crate("CAPI")
+    mo = ctx.crate("CAPI", "miniz_oxide")
+    n_sites = 0
+    for f in sorted(c.fns.values(), key=lambda g: g.name):
+        if f.kind == "promoted":
+            continue
+        if not any(("copy_nonoverlapping" in callee_name(t["call"]) or callee_name(t["call"]).endswith(("ptr::copy", "ptr::write_bytes")))
+                   for _, t in f.calls()):
+            continue
+        ctx.touched(f)
+        ev = paths.Evaluator(c, extra_crates=[mo], unroll=2)
+        for x in ev.run(f):
+            for i, e in enumerate(x.effects):
+                if not (e[0] == "call" and ("copy_nonoverlapping" in e[1] or e[1].endswith(("ptr::copy", "ptr::write_bytes")))):
+                    continue
+                n_sites += 1
+                dst, cnt = e[2][1], e[2][2]
+                if not (dst[0] == "call" and dst[1].endswith("::add") and len(dst[2]) == 2):
+                    r.fail(f.name, "raw-copy", "destination of a raw copy is not `base.add(offset)` of a described buffer: %s" % tstr(dst)[:120], e[3])
+                    continue
+                base, off = dst[2]
+                # the structure describing the buffer: the place whose `buf` field holds `base`
+                S = None
+                if base[0] == "load" and base[1][0] == "fld" and base[1][2] == "buf":
+                    S = base[1][1]
+                for e2 in x.effects[:i]:
+                    if e2[0] == "store" and e2[1][0] == "fld" and e2[1][2] == "buf" and e2[2] == base:
+                        S = e2[1][1]
+                    elif e2[0] == "store" and e2[1][0] == "fld" and e2[1][2] == "buf" and isinstance(e2[2], tuple) and e2[2][0] == "cast" and e2[2][1] == base:
+                        S = e2[1][1]
+                if S is None:
+                    r.fail(f.name, "raw-copy", "cannot tell which buffer descriptor the destination %s belongs to" % tstr(base)[:100], e[3])
+                    continue
+                cap = None
+                for e2 in x.effects[:i]:
+                    if e2[0] == "store" and e2[1][0] == "fld" and e2[1][1] == S and e2[1][2] == "capacity":
+                        cap = e2[2]
+                need = slices.ladd(slices.lin(off), slices.lin(cnt))
+                good = False
+                for lhs, rel, rhs in rels(x):
+                    if rel not in ("Le", "Lt") or slices.lin(lhs) != need:
+                        continue
+                    if cap is not None:
+                        good = good or slices.lin(rhs) == slices.lin(cap)
+                    else:
+                        good = good or (rhs[0] == "load" and rhs[1][0] == "fld" and rhs[1][1] == S and rhs[1][2] == "capacity")
+                if good:
+                    r.ok(f.name, "raw-copy", "copy of n bytes to buf + off under off + n <= capacity", e[3])
+                else:
+                    r.fail(f.name, "raw-copy", "raw copy of %s bytes to %s + %s is not guarded by offset + count <= capacity on this path: it can write past "
+                           "the buffer the C caller described" % (tstr(cnt)[:40], tstr(base)[:40], tstr(off)[:40]), where=e[3], path=row_path(x, 8))
+    if n_sites == 0:
+        r.fail("<c api>", "raw-copy-sites", "no raw copy site found (reference tree: output_buffer_putter)")
+
+
 def run(ctx):
     r1 = ctx.rule("R17.1", "null discipline: every use of a pointer parameter of an extern \"C\" function is covered by a non-null fact", floor=38, config="CAPI")
     robs = ctx.rule("R17.1o", "observations (outside the property's wording)", floor=None, config="CAPI")
@@ -580,4 +645,6 @@ def run(ctx):
     rule_accounting(ctx, r5)
     r6 = ctx.rule("R17.6", "status / flush enums keep their numeric values across the boundary", floor=3, config="CAPI")
     rule_discriminants(ctx, r6)
+    r7 = ctx.rule("R17.7", "raw copies into a caller-described buffer are guarded by offset + count <= capacity on every path", floor=2, config="CAPI")
+    rule_raw_copies(ctx, r7)
     ctx.rules.remove(robs) if not robs.examined else None
